@@ -95,49 +95,72 @@ def r2(ctx):
     env, kind = common.infer_str_kinds(fi.node)
     found = 0
     for n in walk_function(fi.node):
-        if not isinstance(n, ast.If) or not isinstance(n.test, ast.Compare) or len(n.test.ops) != 1:
+        if not isinstance(n, ast.If):
             continue
-        l, r = n.test.left, n.test.comparators[0]
-        if not all(isinstance(x, ast.Call) and isinstance(x.func, ast.Name) for x in (l, r)):
-            continue
-        lc = any(_strip_complement(a)[1] for a in l.args)
-        rc = any(_strip_complement(a)[1] for a in r.args)
-        if lc == rc:
-            continue
-        found += 1
-        direct, comp = (r, l) if lc else (l, r)
-        op = n.test.ops[0]
-        # which branch runs when the direct distance is the smaller one
-        if isinstance(op, (ast.Lt, ast.LtE)):
-            direct_smaller_true = direct is l
-        elif isinstance(op, (ast.Gt, ast.GtE)):
-            direct_smaller_true = direct is r
-        else:
-            ctx.ob(fi.qual, "orientation-test", False, fi.loc(n), "orientation is chosen by %s, not by an order comparison of two distances" % u(n.test))
-            continue
-        same_metric = direct.func.id == comp.func.id
-        d_args = [u(a) for a in direct.args]
-        c_args = [u(_strip_complement(a)[0]) for a in comp.args]
-        kinds = [kind(a) for a in direct.args] + [kind(_strip_complement(a)[0]) for a in comp.args]
-        ok = same_metric and d_args == c_args and all(k == "str" for k in kinds)
-        why = []
-        if not same_metric:
-            why.append("different metrics %s / %s" % (direct.func.id, comp.func.id))
-        if d_args != c_args:
-            why.append("direct distance is over (%s), complemented over (%s)" % (", ".join(d_args), ", ".join(c_args)))
-        if not all(k == "str" for k in kinds):
-            why.append("operand kinds %s are not all haplotype strings" % kinds)
-        ctx.ob(fi.qual, "orientation-operands", ok, fi.loc(n), "orientation test %s: %s" % (u(n.test), "both distances are the same per-position metric over the same two haplotype strings" if ok else "; ".join(why)))
         tb = _agreement_comp(n.body, None)
         fb = _agreement_comp(n.orelse, None)
-        ok2 = tb is not None and fb is not None
-        msg = "agreement vector comprehension not found in both branches"
+        if tb is None or fb is None:
+            continue
+        # this `if` chooses the orientation of the agreement vector
+        found += 1
+        test = n.test
+        direct_smaller_true = None
+        d_args = None
+        why = []
+        if isinstance(test, ast.Compare) and len(test.ops) == 1 and isinstance(test.ops[0], (ast.Lt, ast.LtE, ast.Gt, ast.GtE)):
+            l, r = test.left, test.comparators[0]
+            op = test.ops[0]
+            calls = [x for x in (l, r) if isinstance(x, ast.Call) and isinstance(x.func, ast.Name)]
+            lc = isinstance(l, ast.Call) and any(_strip_complement(a)[1] for a in l.args)
+            rc = isinstance(r, ast.Call) and any(_strip_complement(a)[1] for a in r.args)
+            if len(calls) == 2 and lc != rc:
+                # form A: metric(x, y) vs metric(x, complement(y))
+                direct, comp = (r, l) if lc else (l, r)
+                direct_smaller_true = (direct is l) if isinstance(op, (ast.Lt, ast.LtE)) else (direct is r)
+                d_args = [u(a) for a in direct.args]
+                c_args = [u(_strip_complement(a)[0]) for a in comp.args]
+                kinds = [kind(a) for a in direct.args] + [kind(_strip_complement(a)[0]) for a in comp.args]
+                if direct.func.id != comp.func.id:
+                    why.append("different metrics %s / %s" % (direct.func.id, comp.func.id))
+                if d_args != c_args:
+                    why.append("direct distance is over (%s), complemented over (%s)" % (", ".join(d_args), ", ".join(c_args)))
+                if not all(k == "str" for k in kinds):
+                    why.append("operand kinds %s are not all haplotype strings" % kinds)
+            else:
+                # form B: 2 * metric(x, y) vs number of positions  (complemented distance = n - direct)
+                def two_times_metric(e):
+                    if isinstance(e, ast.BinOp) and isinstance(e.op, ast.Mult):
+                        for c_, o in ((e.left, e.right), (e.right, e.left)):
+                            if isinstance(c_, ast.Constant) and c_.value == 2 and isinstance(o, ast.Call) and isinstance(o.func, ast.Name) and o.func.id == "hamming":
+                                return o
+                    return None
+
+                ml, mr = two_times_metric(l), two_times_metric(r)
+                if (ml is None) == (mr is None):
+                    why.append("orientation is chosen by %s, which is neither `d(x, y) < d(x, complement(y))` nor `2 * d(x, y) < number of positions`" % u(test))
+                else:
+                    metric, bound = (ml, r) if ml is not None else (mr, l)
+                    direct_smaller_true = (ml is not None) if isinstance(op, (ast.Lt, ast.LtE)) else (mr is not None)
+                    d_args = [u(a) for a in metric.args]
+                    kinds = [kind(a) for a in metric.args]
+                    if not all(k == "str" for k in kinds):
+                        why.append("operand kinds %s are not haplotype strings" % kinds)
+                    lf = linear(bound)
+                    good_bounds = [{"len(block)": 1}] + [{"len(%s)" % a: 1} for a in d_args]
+                    if lf not in good_bounds:
+                        why.append("the threshold %s is not the number of compared positions (the complemented distance is n - d, so d < n - d means 2 * d < n)" % u(bound))
+        else:
+            why.append("orientation is chosen by %s, not by an order comparison of distances" % u(test))
+        ok = not why
+        ctx.ob(fi.qual, "orientation-operands", ok, fi.loc(n), "orientation test %s compares the direct with the complemented per-position distance of the same two haplotype strings" % u(test) if ok else "orientation test %s: %s" % (u(test), "; ".join(why)))
+        ok2 = direct_smaller_true is not None and d_args is not None
+        msg = "orientation criterion not understood, branches not checked"
         if ok2:
             eq_branch, ne_branch = (tb, fb) if direct_smaller_true else (fb, tb)
             ok2 = eq_branch[0] is ast.Eq and ne_branch[0] is ast.NotEq and list(eq_branch[1]) == d_args and list(ne_branch[1]) == d_args
             msg = "branch taken when the direct distance is smaller marks agreement with ==, the other with !=, over the tested strings" if ok2 else "branches do not match the tested orientation (direct-smaller branch uses %s over %s, other uses %s over %s)" % (eq_branch[0].__name__, eq_branch[1], ne_branch[0].__name__, ne_branch[1])
         ctx.ob(fi.qual, "orientation-branches", ok2, fi.loc(n), msg)
-    ctx.require(found >= 1, "orientation test (direct vs complemented distance) not found in compare_pair")
+    ctx.require(found >= 1, "no `if` choosing between an == and a != agreement vector found in compare_pair")
 
 
 def r3(ctx):
